@@ -40,8 +40,14 @@ theorem C06_runloop_begins_under_free_lock (w w' : World) (b : BId) (e : EId)
   simp [guard, checks, Checks.ok] at hg
   obtain ⟨_, ⟨⟨_, hl⟩, _⟩, _⟩ := hg
   refine ⟨hl, ?_⟩
-  simp only [apply, apply0, wake_lock]
-  split <;> simp [markComplete] <;> (repeat' split) <;> simp
+  show (wake (peOpen (peEnter w (.rl b) b) (.rl b) b e)).lock = some b
+  rw [wake_lock]
+  have hm : ∀ (w : World) (x : EId), (markComplete w x).lock = w.lock := by
+    intro w x; unfold markComplete; simp only []; repeat' split
+    all_goals simp
+  unfold peOpen
+  simp only []
+  split <;> simp [hm, peEnter]
 
 /-- C06: a handler is scheduled by a run loop only while that run loop holds the global lock. -/
 theorem C06_runloop_schedules_under_lock (w w' : World) (b' : BId) (i : IId) (b : BId) (e : EId) (k : HId)
